@@ -15,12 +15,20 @@ use super::{multi_output, validate_size};
 pub fn split_by(f: SigNode, by_scalar: bool, keep_empty: bool, env: &mut Uiua) -> UiuaResult {
     let delim = env.pop(1)?;
     let haystack = env.pop(2)?;
+    // Only lists are split here, and only by a delimiter of the same kind of elements.
+    // Everything else is done, or fails, the way the mask and the partition do it.
+    let kind = |val: &Value| match val {
+        Value::Num(_) | Value::Byte(_) => Some(0),
+        Value::Char(_) => Some(1),
+        Value::Box(_) => Some(2),
+        _ => None,
+    };
     if f.sig.args() != 1
-        || haystack.rank() > 1
+        || haystack.rank() != 1
         || delim.rank() > 1
+        || kind(&haystack).is_none()
+        || kind(&haystack) != kind(&delim)
         || by_scalar && !(delim.rank() == 0 || delim.rank() == 1 && delim.row_count() == 1)
-        || matches!(delim, Value::Complex(_))
-        || matches!(haystack, Value::Complex(_))
     {
         let mask = if by_scalar {
             delim.is_ne(haystack.clone(), env)?
